@@ -252,6 +252,7 @@ int main(int argc, char **argv)
     l1.name = "L1";
     l1.n = n0 * NU + n0 * n0 * NB;
     l1.counter_names = cn;
+    l1.hang_s = 5;
     auto dec = [&](long long i, long long ns, long long nb_first, bool &unary, int &op, int &a, int &b) {
         // layout: [unary: ns*NU][binary over (ns x nb_first)]
         if (i < ns * NU) {
@@ -363,7 +364,7 @@ int main(int argc, char **argv)
         return "crash:" + (u ? UO[op].name : BO[op].name) + ":" + oc + ":(" + type_code_name(SS.S[a].e->get_type_code())
                + (u ? "" : "," + type_code_name(SS.S[b].e->get_type_code())) + ")";
     };
-    l2.hang_s = 30;
+    l2.hang_s = 8;
     l2.body = [&](long long i, Ctx &c) {
         bool u;
         int op, a, b;
